@@ -4,9 +4,15 @@ import (
 	"context"
 	"fmt"
 	"runtime"
+	"strconv"
+	"strings"
 	"sync"
 	"sync/atomic"
 	"time"
+
+	sdktrace "go.opentelemetry.io/otel/sdk/trace"
+	"go.opentelemetry.io/otel/sdk/trace/tracetest"
+	"go.opentelemetry.io/otel/trace"
 
 	"verif/harness/vgen"
 )
@@ -313,4 +319,93 @@ func runFree(w *vgen.Writer, r *vgen.Rand, n int) {
 			w.Add(term, desc, "free", nexp > 0 && (nilFlush > 0 || nilSd > 0))
 		}()
 	}
+}
+
+// ---------------------------------------------------------------------------
+// Drop storms: many goroutines end sampled spans at the same instant on a full non-blocking queue
+// (the worker is inside a blocked export), so the drop counter is bumped concurrently.  Afterwards the
+// gate is released, everything is flushed and one more span is exported: the counter read for that
+// last export is final, and exported + counted = ended must hold exactly (no timing involved: every
+// End has returned before the counter is read).  Ends go straight to OnEnd with prepared snapshots and
+// are not logged one by one, so that nothing serialises the goroutines.
+// ---------------------------------------------------------------------------
+
+func runStorms(w *vgen.Writer, r *vgen.Rand, n int) {
+	for i := 0; i < n; i++ {
+		qc := r.Range(1, 4)
+		c := cfg{qcap: qc, maxb: r.Range(1, qc+2), blocking: false}
+		G, K := r.Range(8, 16), r.Range(300, 700)
+		desc := map[string]any{"fragment": "drop storm", "qcap": c.qcap, "maxBatch": c.maxb, "goroutines": G, "perGoroutine": K}
+		func() {
+			defer func() {
+				if e := recover(); e != nil {
+					w.Violation(fmt.Sprintf("panic: %v", e), desc)
+				}
+			}()
+			rg := newRigOpts(c, time.Hour, time.Hour, rigOpts{})
+			g := rg.g
+			snaps := make([][]sdktrace.ReadOnlySpan, G)
+			id := 0
+			for a := range snaps {
+				for k := 0; k < K; k++ {
+					snaps[a] = append(snaps[a], sampledSnapshot(id, k))
+					id++
+				}
+			}
+			total := id
+			g.setMode(modeBlock)
+			ok := within(freeWatchdog, func() {
+				var wg sync.WaitGroup
+				start := make(chan struct{})
+				for a := range snaps {
+					wg.Add(1)
+					go func(ss []sdktrace.ReadOnlySpan) {
+						defer wg.Done()
+						<-start
+						for _, s := range ss {
+							rg.bsp.OnEnd(s)
+						}
+					}(snaps[a])
+				}
+				close(start)
+				wg.Wait()
+				g.unblock()
+				rg.bsp.ForceFlush(context.Background())
+				rg.bsp.OnEnd(sampledSnapshot(total, 0)) // the probe: its export reads the final counter
+				total++
+				rg.bsp.ForceFlush(context.Background())
+				rg.bsp.Shutdown(context.Background())
+			})
+			if !ok {
+				w.Tally("storm:inconclusive-timeout")
+				return
+			}
+			evs := rg.rec.take()
+			var bs []string
+			nexp, last := 0, -1
+			for _, e := range evs {
+				if e.kind == evBegin {
+					bs = append(bs, "bD "+coqIDs(e.batch)+" "+strconv.Itoa(dOr0(e.d)))
+					nexp += len(e.batch)
+					last = e.d
+				}
+			}
+			if last < 0 {
+				w.Tally("storm:counter-not-observed")
+				return
+			}
+			desc["ended"], desc["exported"], desc["counted_dropped"] = total, nexp, last
+			w.Tally("storm:run")
+			w.Add(vgen.App("CStorm", coqCfg(c), strconv.Itoa(total), "["+strings.Join(bs, "; ")+"]"), desc, "storm", last > 0)
+		}()
+	}
+}
+
+func sampledSnapshot(id, k int) sdktrace.ReadOnlySpan {
+	sc := trace.NewSpanContext(trace.SpanContextConfig{
+		TraceID:    trace.TraceID{0xc0, 0x02, byte(id >> 16), byte(id >> 8), byte(id), 1},
+		SpanID:     trace.SpanID{0xc0, 0x02, byte(id >> 16), byte(id >> 8), byte(id), 2},
+		TraceFlags: flagsFor(true, k),
+	})
+	return tracetest.SpanStub{Name: "s" + strconv.Itoa(id), SpanContext: sc}.Snapshot()
 }
